@@ -14,7 +14,7 @@ from collections import namedtuple
 
 import rx
 
-from ..common import Check, Outcome, Snap, subscribe, subscribe2, bootstrap, WORK
+from ..common import FILE_NAME_TAGS, Check, Outcome, Snap, subscribe, subscribe2, bootstrap, WORK
 
 rs = bootstrap()
 from ..progs import call          # noqa: E402  (positional / keyword calling conventions, see progs.call)
@@ -145,7 +145,7 @@ class C18(Check):
     ASSUMPTIONS = ['strings contain no newline characters; separator does not contain the quote or escape character (domain of the property)',
                    'floats are finite and compared with == plus sign']
     ANCHORS = ['rxsci/container/csv.py', 'rxsci/io/file.py', 'rxsci/framing/line.py']
-    REQUIRED_TAGS = ['stream', 'file', 'enc=None', 'enc=utf-8', 'multi-chunk-file', 'cols=1', 'cols=8',
+    REQUIRED_TAGS = ['newline=CRLF'] + FILE_NAME_TAGS + ['stream', 'file', 'enc=None', 'enc=utf-8', 'multi-chunk-file', 'cols=1', 'cols=8',
                      'skind=adversarial', 'skind=huge', 'skind=control', 'fkind=bits', 'sep=,', 'sep=;', 'sep=|', 'sep=tab', 'sep=multi', 'pushed-source', 'multibyte-char-across-a-64KiB-boundary', 'rows-not-retained',
                      'schema=names', 'schema=typed_namedtuple', 'schema=header']
     REQUIRED_OBSERVED = ['fields_compared', 'rows_needing_quote_merge']
@@ -196,6 +196,11 @@ class C18(Check):
                    'encoding': (None, 'utf-8')[(k // file_every) % 4 // 2] if is_file else None}
 
     def evaluate(self, case):
+        from ..common import in_dir
+        with in_dir(self._tmpdir()):
+            return self._evaluate(case)
+
+    def _evaluate(self, case):
         out = Outcome()
         cols, sep, esc = case['cols'], case['sep'], case['esc']
         rows = build_rows(case['rows'], cols, sep, esc)
@@ -239,19 +244,25 @@ class C18(Check):
         else:
             enc = case['encoding']
             out.tags.append('enc=%s' % enc)
-            path = os.path.join(self._tmpdir(), 'f.csv')
+            from ..common import file_path
+            path = file_path(self._tmpdir(), 'f.csv', '.csv', case['rows']['rseed'] // 5, out)
             if os.path.exists(path):
                 os.unlink(path)
+            # the documented `newline` parameter of dump_to_file: '\n' or the CRLF of files made for / on Windows (read back through
+            # a text-mode file, which translates line ends)
+            nl = '\r\n' if case['rows']['rseed'] % 4 == 1 else '\n'
+            if nl != '\n':
+                out.tags.append('newline=CRLF')
             try:
                 if len(src) % 2:
                     # pushed source + file read back inside the completion callback (see progs.dump_pushed)
                     from ..progs import dump_pushed
                     out.tags.append('pushed-source')
-                    w = dump_pushed(lambda o: o.pipe(call(csv.dump_to_file, [('filename', path), ('header', True), ('separator', sep), ('escapechar', esc), ('newline', '\n'), ('encoding', enc)])), src, path, out, 'csv.dump_to_file')
+                    w = dump_pushed(lambda o: o.pipe(call(csv.dump_to_file, [('filename', path), ('header', True), ('separator', sep), ('escapechar', esc), ('newline', nl), ('encoding', enc)])), src, path, out, 'csv.dump_to_file')
                     if out.failures:
                         return out
                 else:
-                    w = subscribe(rx.from_(src).pipe(call(csv.dump_to_file, [('filename', path), ('header', True), ('separator', sep), ('escapechar', esc), ('newline', '\n'), ('encoding', enc)])), Snap())
+                    w = subscribe(rx.from_(src).pipe(call(csv.dump_to_file, [('filename', path), ('header', True), ('separator', sep), ('escapechar', esc), ('newline', nl), ('encoding', enc)])), Snap())
             except Exception as e:      # noqa: BLE001
                 w = Snap()
                 w.err = e
